@@ -9,9 +9,7 @@ exists on `detectorRetries + 1` consecutive polls).  Model: `Arca.Model.PluginSt
 `State()` answers (e0ccfb1: input of the current stage provided ⇒ running; be7655c: context cancelled ⇒ running), the
 loop-side record (`l.reportedStages`, `l.completedSteps`, `l.finishedStages`, the stages settled by
 `markRemainingStagesUnresolvable`; all written when a report is PROCESSED) and the classification `countStates` makes
-(`countsAs`).  (v1: the F11 repair of the loop is not in the tree yet; the theorems for `marks = true` — `detector_sound_finished`,
-`detector_sound`, `failure_tail_settled_with_marking` — describe the loop AFTER that repair and are not obligations yet.)
-The model is parametrised by `marks` = "the loop marks the remaining stages unresolvable when it
+(`countsAs`).  The model is parametrised by `marks` = "the loop marks the remaining stages unresolvable when it
 processes the completion" (the F11 repair); theorems that do not mention a value of `marks` hold for both.
 
 * The RAW state is unsound for the detector (finding F10a): `raw_state_window_*` are reachable states in which it says
@@ -25,6 +23,7 @@ processes the completion" (the F11 repair); theorems that do not mention a value
 * `no_lost_check`: the refinement never blinds the detector.
 -/
 import Arca.Proofs.PluginState
+import Arca.Gen.Skel
 
 namespace Arca.Props.C09
 open Arca.Model.PluginState
@@ -229,6 +228,12 @@ theorem failure_tail_settled_with_marking :
       s.finishedStages = [.deploy, .deployFailed] ∧
       s.settledStages = [.enabling, .disabled, .starting, .running, .outputs, .crashed, .closed] := by
   refine ⟨_, rfl, ?_, ?_, ?_, ?_, ?_⟩ <;> decide
+
+/-- The tie of `marks = true` to the source: the regenerated control skeleton of `onStageComplete` contains the call of
+    `markRemainingStagesUnresolvable` (the F11 repair).  This theorem fails on a tree without that repair. -/
+theorem loop_marks_remaining_stages_at_completion :
+    Arca.Gen.Skel.workflow_workflow_loopState_onStageComplete.contains "call:l.markRemainingStagesUnresolvable(stepID)" = true := by
+  decide
 
 /-! ## the refinement does not blind the detector -/
 
